@@ -307,14 +307,14 @@ pub fn generate_edit(tier: &str, seed: u64, out: &mut Out, which: &str) {
             if h.is_empty() || n % stride != 0 {
                 continue;
             }
-            if thorough && h.len() == 3 && !rng.chance(12) {
+            if thorough && h.len() == 3 && !rng.chance(60) {
                 continue;
             }
             out.req("deb.hist", &[st.clone(), h.join(",")]);
         }
     }
     // random longer histories from random well-formed documents
-    let n = if thorough { 60_000 } else { 6_000 };
+    let n = if thorough { 600_000 } else { 6_000 };
     let full = op_pool(3);
     for _ in 0..n {
         let ls = docspec::random_lines(&mut rng, false);
